@@ -14,7 +14,7 @@ text = ('Each change compiles, keeps the pinned suite green (33 tests incl. doct
         'passes without it; each was confirmed by me in its worktree before being kept (`seeded/<id>/meta.json`: what it breaks, what it\n'
         'needs to manifest, what I ran). "witness" = the contract proof was UNDECIDED after the rewrite (lost anchor / construct outside the\n'
         'rules) or failed, and the native search produced a failing input that replays on the real code.  Seeds -1/-2 are the first round,\n'
-        '-3/-4 a second and -5/-6 a third round by fresh sub-agents after the checks had been strengthened; the recorded outcome is that of the FINAL machinery.\n'
+        '-3/-4 a second, -5/-6 a third and -7/-8 a fourth round by fresh sub-agents after the checks had been strengthened; the recorded outcome is that of the FINAL machinery.\n'
         'First-pass misses and what was strengthened: round 1 - C03-2 (push_null ownership), C17-2 / C08-2 (label ownership), C12-1 (ubjson unit),\n'
         'C13-2 (Frame-level transpose_one contracts), C05-1/2, C16-1/2, C19-1/2, C09-2 (no native fallback yet: c05/c16/c19/c09 oracles added),\n'
         'C02-1 (70000-frame candidates added), C07-2 (C07 now owns the reader-acceptance clause); round 2 - C06-4 (C06 now owns the Game Start\n'
@@ -22,7 +22,10 @@ text = ('Each change compiles, keeps the pinned suite green (33 tests incl. doct
         'mid-stream); round 3 (-5/-6, again fresh sub-agents) - C02-6 (fragmented .slpp read added to the c02 oracle), C04-5 (end-of-stream\n'
         'close clause added to reader::read, owned by C04), C08-5 (whole-function ownership: every clause of parse_event__other/__splitter\n'
         'now counts for C08), C16-6 (C16 owns the tail clauses of read; zero-raw-length variant in the c16 oracle).  Everything else was caught\n'
-        'on the first pass (round 1: 26 of 40, round 2: 37 of 40, round 3: 36 of 40 on the first pass; 120 of 120 with the final machinery).\n\n'
+        'on the first pass; round 4 (-7/-8) - C05-8 (start blocks whose version bytes are older than their length class added to the c05 oracle),\n'
+        'C06-8 (no-occupied-port corruption added), C07-7 (hang watchdog and denser tail offsets for the .slp truncation search), C10-8 (completeness\n'
+        'clause: the skip is refused ONLY without room for a Game End), C17-8 (C17 now owns the end-of-stream close clauses of the reader).\n'
+        'First-pass detection: round 1 26/40, round 2 37/40, round 3 36/40, round 4 35/40; 160 of 160 with the final machinery.\n\n'
         '| Seed | What it breaks | Outcome of the registered check(s) |\n|---|---|---|\n' + '\n'.join(rows) + '\n')
 p = os.path.join(V, 'DESIGN.md')
 s = open(p).read()
